@@ -1191,3 +1191,112 @@ func init() {
 			return out
 		}})
 }
+
+// ADVFWD — a scheme-level wrapper forwards its arguments to the core function of the same name unchanged.
+//
+// `bgv.Parameters.GaloisElementsForInnerSum(batch, n)` is `rlwe.GaloisElementsForInnerSum(p, batch, n)` plus the row
+// rotation. A wrapper that "optimises" the forwarded argument (n>>1 when the sum spans both rows) advertises the list
+// of another operation: the same list provisions RotateAndAdd, which then misses keys. Two seeding agents made that
+// change independently. The rule is about the shape of a thin wrapper, not about values:
+//
+// for every method or function F outside core/ that calls a function or method of another package with the same name
+// F, each argument in the position of an integer callee parameter that has the name and type of one of F's own
+// parameters is that parameter itself, or its negation (Replicate is the inner sum with a negative batch).
+func advProps(fkey string) []string {
+	ps := append([]string{}, propsForKey(fkey)...)
+	if strings.Contains(fkey, "Galois") && !containsStr(ps, "C11") {
+		ps = append(ps, "C11")
+	}
+	return ps
+}
+
+func scanAdvFwd(c *core.Ctx) []ob {
+	var out []ob
+	n := 0
+	c.FuncDecls(func(pk *packages.Package, file *ast.File, fd *ast.FuncDecl) {
+		if fd.Body == nil || fileIsTestSupport(c.Program, fd.Pos()) || inExamples(pk) {
+			return
+		}
+		info := pk.TypesInfo
+		own := map[string]types.Object{}
+		for _, f := range fd.Type.Params.List {
+			for _, nm := range f.Names {
+				if o := info.Defs[nm]; o != nil && nm.Name != "_" {
+					own[nm.Name] = o
+				}
+			}
+		}
+		if len(own) == 0 {
+			return
+		}
+		fkey := core.FuncKey(pk, fd)
+		ast.Inspect(fd.Body, func(x ast.Node) bool {
+			call, ok := x.(*ast.CallExpr)
+			if !ok {
+				return true
+			}
+			fn := calleeFunc(info, call)
+			if fn == nil || fn.Name() != fd.Name.Name || fn.Pkg() == nil {
+				return true
+			}
+			if fn.Pkg() == pk.Types && !c.IsFixture {
+				return true
+			}
+			if c.IsFixture && !strings.HasPrefix(fd.Name.Name, "RotationsForFold") {
+				return true
+			}
+			sig, ok := fn.Type().(*types.Signature)
+			if !ok || sig.Variadic() {
+				return true
+			}
+			for j, a := range call.Args {
+				if j >= sig.Params().Len() {
+					break
+				}
+				pn := sig.Params().At(j).Name()
+				o, ok := own[pn]
+				if !ok {
+					continue
+				}
+				if b, ok := o.Type().Underlying().(*types.Basic); !ok || b.Info()&types.IsInteger == 0 || !types.Identical(o.Type(), sig.Params().At(j).Type()) {
+					continue
+				}
+				n++
+				key := fmt.Sprintf("ADVFWD:%s->%s#%s", fkey, fn.Name(), pn)
+				e := unparen(a)
+				if ue, ok := e.(*ast.UnaryExpr); ok && ue.Op == token.SUB {
+					e = unparen(ue.X)
+				}
+				if id, ok := e.(*ast.Ident); ok && info.Uses[id] == o {
+					out = append(out, withProps(okOb("ADVFWD", key, c.Rel(call.Pos()), "forwarded unchanged", true), advProps(fkey)...))
+					continue
+				}
+				out = append(out, withProps(violOb("ADVFWD", key, c.Rel(a.Pos()), fmt.Sprintf("%s wraps %s.%s but passes `%s` for its parameter %s: a thin wrapper forwards the argument itself (the list/result it returns is documented as that of the wrapped operation for the caller's arguments)", fkey, fn.Pkg().Name(), fn.Name(), exprString(a), pn)), advProps(fkey)...))
+			}
+			return true
+		})
+	})
+	c.Stats["advfwd_sites"] = n
+	return out
+}
+
+func init() {
+	core.Register(&core.Rule{Name: "ADVFWD", Props: []string{"C11", "C12"}, Wide: true,
+		Doc: "a function that calls a same-named function of another package passes, for every integer callee parameter that has the name and type of one of its own parameters, that parameter itself (or its negation)",
+		Run: func(c *core.Ctx) []ob {
+			out := scanAdvFwd(c)
+			for _, o := range control(c, "ADVFWD", scanAdvFwd, "RotationsForFold") {
+				out = append(out, withProps(o, "C11", "C12"))
+			}
+			return out
+		}})
+}
+
+func containsStr(l []string, s string) bool {
+	for _, x := range l {
+		if x == s {
+			return true
+		}
+	}
+	return false
+}
